@@ -222,6 +222,23 @@ harnesses! {
         let r = Seq::<Dna>::from_str(st);
         check_parse::<Dna, 1>(&oracle::DNA, &[a], r);
     }
+    fn c01_q_entry_str_multibyte [4] {
+        // non-ASCII text through the &str / FromStr entry points: every byte of a multi-byte
+        // character is a non-symbol byte and the first one must be reported
+        // (U+0141 has the low byte 0x41 = 'A', U+012D 0x2D = '-')
+        let txt: &str = "\u{141}";
+        let r = Seq::<Dna>::try_from(txt);
+        assert!(r == Err(ParseBioError::UnrecognisedBase(0xC5)), "C01.entry.str_non_ascii_must_be_refused_with_first_byte");
+        let r2 = Seq::<Iupac>::from_str("\u{12d}");
+        assert!(r2 == Err(ParseBioError::UnrecognisedBase(0xC4)), "C01.entry.fromstr_non_ascii_must_be_refused_with_first_byte");
+        reach!("end");
+    }
+    fn c01_q_entry_string_multibyte_after_valid [4] {
+        let txt = String::from("G\u{154}");
+        let r = Seq::<Dna>::try_from(&txt);
+        assert!(r == Err(ParseBioError::UnrecognisedBase(0xC5)), "C01.entry.string_non_ascii_must_be_refused_with_first_byte");
+        reach!("end");
+    }
     fn c01_q_entry_slice_dna [3] {
         let a = any_u8();
         let buf = [a];
